@@ -8,9 +8,9 @@ from engine import AnalysisError
 from engine.cfg import CFG, stmt_of
 from engine.dataflow import ReachingDefs, target_names, assigned_value
 from engine.srcmodel import walk_shallow, norm, parent, set_parents
-from engine.util import call_name, contains, is_attr_of, get_method, in_body, fstring_template
+from engine.util import call_name, contains, get_method, in_body, fstring_template
 from ._c01_util import (bound_by_inner_scope, loads, load_ids, strip_wrappers, bounded_paths, branch_outcome,
-                        membership_facts, read_reserved, check_vname_is_applied, literal_pieces)
+                        membership_facts, read_reserved, literal_pieces)
 
 PROPERTY = "C01"
 IR = "pyrates/ir/circuit.py"
@@ -37,6 +37,10 @@ EXPLANATION = (
     "R6 in to_func and get_jacobian_func the returned argument values and argument names are produced by one iteration over one "
     "list: one value per name, each value get_var(<that name>), skipped names are exactly the seeded leading entries t, state "
     "vector, hist, and every generate_func_head implementation returns that prefix in that order.  "
+    "R7 every plain store into an existing operator's input table (`inputs = op['inputs']; inputs[var] = {'sources': …}`, also "
+    "`inputs[var]['sources'] = …`) in pyrates/ir/circuit.py lies on the branch of a dominating membership test where the "
+    "variable has no entry yet, so registering an edge operator or a delay buffer never drops the same-node sources that "
+    "OperatorGraph already registered.  "
     "R5 (state layout loops) is implemented as C12-R2 in rules/c12.py and registered here when that module provides it.  "
     "NOT decided: that the substituted input term is the right sum, the arithmetic of equations (C05), values of weights, "
     "index-role typing of weight matrices (C16), anything about run-time values."
@@ -700,8 +704,7 @@ def r4_fresh_name_generator(ctx, rid):
                                   f"(MultiDiGraph.add_node overwrites)", {"key_defs": src})
     ctx.require(n_add >= 2, f"{rid}: expected add_node calls in add_var and add_op of {cls.name}, found {n_add}")
     # ---- call sites that throw the returned label away must request a provably free name
-    reserved = read_reserved(ctx, rid)
-    check_vname_is_applied(ctx, rid)
+    reserved = read_reserved(ctx, rid)      # effective vocabulary: empty when check_vname does not raise / is not applied
     n_sites = 0
     for mname in ("add_var", "add_op"):
         m = get_method(ctx, cls, mname)
@@ -1074,12 +1077,95 @@ def target_names_of_stmt(st) -> List[str]:
 
 
 # ================================================================================================
+# R7 registering a new source of an input variable keeps the sources that are already there
+# ================================================================================================
+
+def _inputs_table_names(ctx, f) -> Dict[str, List[ast.stmt]]:
+    """Local names bound to `<existing operator>['inputs']` (the per-operator table input variable -> {'sources': ...})."""
+    out: Dict[str, List[ast.stmt]] = {}
+    for st in walk_shallow(f.node):
+        if isinstance(st, ast.Assign) and len(st.targets) == 1 and isinstance(st.targets[0], ast.Name) \
+                and isinstance(st.value, ast.Subscript) and isinstance(st.value.slice, ast.Constant) and st.value.slice.value == "inputs" \
+                and not isinstance(st.value.value, ast.Dict):
+            out.setdefault(st.targets[0].id, []).append(st)
+    return out
+
+
+def _store_root(t: ast.AST) -> Optional[Tuple[ast.Name, ast.AST]]:
+    """`I[k]` / `I[k]['sources']` / ... -> (I, k)."""
+    chain = []
+    while isinstance(t, ast.Subscript):
+        chain.append(t)
+        t = t.value
+    if isinstance(t, ast.Name) and chain:
+        return t, chain[-1].slice
+    return None
+
+
+def r7_source_registration_accumulates(ctx, rid):
+    n = 0
+    for f in ctx.repo.all_functions([IR]):
+        tables = _inputs_table_names(ctx, f)
+        if not tables:
+            continue
+        cfg, rd = ctx.cfg(f), ctx.rd(f)
+        for st in [x for x in walk_shallow(f.node) if isinstance(x, ast.Assign)]:
+            for t in st.targets:
+                root = _store_root(t) if isinstance(t, ast.Subscript) else None
+                if root is None or root[0].id not in tables:
+                    continue
+                I, k = root
+                cfg_st = stmt_of(cfg, st)
+                if not all(any(d is b for b in tables[I.id]) for d in rd.defs_reaching_at(cfg_st, I.id)):
+                    continue            # the name was re-bound to something else before this store
+                n += 1
+                ktxt = ast.unparse(k)
+                facts = {"table": norm(tables[I.id][0]), "key": ktxt, "store": norm(st)}
+                absent = None
+                for d in cfg.dominators(cfg_st):
+                    if not isinstance(d, ast.If) or d is cfg_st:
+                        continue
+                    if any(contains(b, st) for b in d.body):
+                        outcome = True
+                    elif any(contains(b, st) for b in d.orelse):
+                        outcome = False
+                    else:
+                        continue
+                    for name, table, is_member in membership_facts(d.test, outcome):
+                        if name == ktxt and table == I.id and not is_member:
+                            same = all(rd.defs_reaching_at(d, x) == rd.defs_reaching_at(cfg_st, x) for x in (ktxt, I.id))
+                            if same:
+                                absent = d
+                if absent is not None:
+                    facts["guard"] = norm(absent)
+                    ctx.ok(rid, f, st, f"`{norm(st)}` creates the entry only on the branch where `{ktxt}` is not yet in the operator's "
+                                       f"input table (`{norm(absent)}`); existing sources are kept", facts)
+                else:
+                    ctx.violation(rid, f, st,
+                                  f"`{norm(st)}` replaces the entry of input variable `{ktxt}` in the target operator's input table "
+                                  f"(`{norm(tables[I.id][0])}`) without being confined to the branch where that variable has no entry yet: "
+                                  f"sources registered earlier (operators of the same node whose output feeds `{ktxt}`, other edge "
+                                  f"operators) are dropped, so the input is no longer the sum of all its incoming connections", facts)
+        # `I.setdefault(k, {...})` never replaces an entry: counted as a registration that keeps existing sources
+        for c in [x for x in walk_shallow(f.node) if isinstance(x, ast.Call)]:
+            if isinstance(c.func, ast.Attribute) and c.func.attr == "setdefault" and isinstance(c.func.value, ast.Name) \
+                    and c.func.value.id in tables and c.args:
+                cst = stmt_of(cfg, c)
+                if all(any(d is b for b in tables[c.func.value.id]) for d in rd.defs_reaching_at(cst, c.func.value.id)):
+                    n += 1
+                    ctx.ok(rid, f, cst, f"`{ast.unparse(c)}` creates the entry of `{ast.unparse(c.args[0])}` only when it is absent "
+                                        f"(dict.setdefault); existing sources are kept", {"store": norm(cst)})
+    ctx.require(n >= 1, f"{rid}: no registration store into an operator's input table found in {IR}")
+
+
+# ================================================================================================
 RULES = [
     ("C01-R1", r1_loop_variable_discipline, 40),
     ("C01-R2", r2_accumulate_on_scatter, 1),
     ("C01-R3", r3_grouping_key_determines_scalar_fields, 1),
     ("C01-R4", r4_fresh_name_generator, 6),
     ("C01-R6", r6_names_and_values_from_one_iteration, 6),
+    ("C01-R7", r7_source_registration_accumulates, 3),
 ]
 
 # C01-R5 (state layout: one distinct extent per state variable, same layout in to_func / get_jacobian_func /
